@@ -1,11 +1,39 @@
-//! Loader / constructor actions run in the child (C16, C17).
+//! Loader / constructor actions run in the child (C16, C17): every entry point
+//! of the repository that accepts artifact files, bytes or template objects.
 use crate::child::ChildSpec;
-use serde_json::Value;
+use anyhow::{anyhow, Context};
+use plonky2::plonk::proof::ProofWithPublicInputs;
+use serde_json::{json, Value};
+use std::path::{Path, PathBuf};
+use wormhole_aggregator::aggregator::PublicBatchAggregator;
+use wormhole_aggregator::common::utils::canonical_leaf_verifier_data;
+use wormhole_aggregator::private_batch::prover::PrivateBatchProver;
+use wormhole_aggregator::public_batch::prover::{PublicBatchInputs, PublicBatchProver};
+use wormhole_aggregator::CircuitBinsConfig;
+use wormhole_inputs::BytesDigest;
+use zk_circuits_common::circuit::{wormhole_private_batch_circuit_config, wormhole_public_batch_circuit_config, C, D, F};
+
+type Proof = ProofWithPublicInputs<F, C, D>;
+
+fn dir_of(spec: &ChildSpec) -> PathBuf {
+    PathBuf::from(spec.args.get("dir").and_then(|v| v.as_str()).expect("child: missing dir"))
+}
+fn n_of(spec: &ChildSpec) -> usize {
+    spec.args.get("n").and_then(|v| v.as_u64()).expect("child: missing n") as usize
+}
+fn m_of(spec: &ChildSpec) -> usize {
+    spec.args.get("m").and_then(|v| v.as_u64()).expect("child: missing m") as usize
+}
+/// Raw read for the byte/object constructors (the constructor under test
+/// receives bytes, so how they were fetched is not part of it).
+fn raw(p: &Path) -> anyhow::Result<Vec<u8>> {
+    std::fs::read(p).with_context(|| format!("harness read of {}", p.display()))
+}
 
 pub fn run(action: &str, spec: &ChildSpec) -> anyhow::Result<Value> {
     match action {
         "seam_selftest" => {
-            let dir = std::path::PathBuf::from(spec.args.get("dir").and_then(|v| v.as_str()).unwrap());
+            let dir = dir_of(spec);
             std::fs::create_dir_all(dir.join("a"))?;
             std::fs::write(dir.join("a/f"), b"hello")?;
             let b = std::fs::read(dir.join("a/f"))?;
@@ -19,6 +47,96 @@ pub fn run(action: &str, spec: &ChildSpec) -> anyhow::Result<Value> {
             std::fs::write(dir.join("b/g"), b"x")?;
             std::fs::remove_dir_all(dir.join("b"))?;
             Ok(Value::Null)
+        }
+        // ------------------------------------------------------------ leaf
+        "load_leaf_verifier" => {
+            let d = dir_of(spec);
+            let v = wormhole_verifier::WormholeVerifier::new_from_files(&d.join("verifier.bin"), &d.join("common.bin"))?;
+            Ok(json!({"num_public_inputs": v.circuit_data.common.num_public_inputs}))
+        }
+        "load_leaf_verifier_bytes" => {
+            let d = dir_of(spec);
+            let v = wormhole_verifier::WormholeVerifier::new_from_bytes(&raw(&d.join("verifier.bin"))?, &raw(&d.join("common.bin"))?)?;
+            Ok(json!({"num_public_inputs": v.circuit_data.common.num_public_inputs}))
+        }
+        "load_config" => {
+            let c = CircuitBinsConfig::load(dir_of(spec))?;
+            Ok(json!({"n": c.num_leaf_proofs, "m": c.num_private_batch_proofs}))
+        }
+        // --------------------------------------------------- private batch
+        "load_private_dir" => {
+            let p = PrivateBatchProver::new_from_binaries_dir(&dir_of(spec))?;
+            Ok(json!({"n": p.num_leaf_proofs()}))
+        }
+        "load_private_files" => {
+            let d = dir_of(spec);
+            let p = PrivateBatchProver::new_from_files(&d.join("common.bin"), &d.join("verifier.bin"), &d.join("dummy_proof.bin"), n_of(spec))?;
+            Ok(json!({"n": p.num_leaf_proofs()}))
+        }
+        "load_private_bytes" => {
+            let d = dir_of(spec);
+            let p = PrivateBatchProver::new_from_bytes(&raw(&d.join("common.bin"))?, &raw(&d.join("verifier.bin"))?, &raw(&d.join("dummy_proof.bin"))?, n_of(spec))?;
+            Ok(json!({"n": p.num_leaf_proofs()}))
+        }
+        "load_private_new" => {
+            // object constructor: canonical leaf circuit from source, template object from the file
+            let d = dir_of(spec);
+            let leaf = canonical_leaf_verifier_data();
+            let template = Proof::from_bytes(raw(&d.join("dummy_proof.bin"))?, &leaf.common).map_err(|e| anyhow!("template does not deserialise: {e}"))?;
+            let p = PrivateBatchProver::new(wormhole_private_batch_circuit_config(), leaf.common.clone(), &leaf.verifier_only, n_of(spec), template)?;
+            Ok(json!({"n": p.num_leaf_proofs()}))
+        }
+        "private_commit_prove" => {
+            // constructor + commit + prove with poisoned prover artifacts lying around
+            let d = dir_of(spec);
+            let p = PrivateBatchProver::new_from_binaries_dir(&d)?;
+            let leaf_bytes = raw(Path::new(spec.args.get("leaf_proof").and_then(|v| v.as_str()).expect("leaf_proof")))?;
+            let leaf = Proof::from_bytes(leaf_bytes, &canonical_leaf_verifier_data().common).map_err(|e| anyhow!("{e}"))?;
+            let proof = p.commit(vec![leaf])?.prove()?;
+            Ok(json!({"public_inputs": proof.public_inputs.len()}))
+        }
+        // ---------------------------------------------------- public batch
+        "load_public_dir" => {
+            let p = PublicBatchProver::new_from_binaries_dir(&dir_of(spec))?;
+            Ok(json!({"m": p.num_private_batch_proofs()}))
+        }
+        "load_public_files" => {
+            let d = dir_of(spec);
+            let p = PublicBatchProver::new_from_files(&d.join("private_batch_common.bin"), &d.join("private_batch_verifier.bin"), &d.join("dummy_private_batch_proof.bin"), (n_of(spec), m_of(spec)))?;
+            Ok(json!({"m": p.num_private_batch_proofs()}))
+        }
+        "load_public_bytes" => {
+            let d = dir_of(spec);
+            let p = PublicBatchProver::new_from_bytes(&raw(&d.join("private_batch_common.bin"))?, &raw(&d.join("private_batch_verifier.bin"))?, &raw(&d.join("dummy_private_batch_proof.bin"))?, (n_of(spec), m_of(spec)))?;
+            Ok(json!({"m": p.num_private_batch_proofs()}))
+        }
+        "load_public_new" => {
+            // object constructor: canonical private-batch circuit from source, template object from the file
+            let d = dir_of(spec);
+            let leaf = canonical_leaf_verifier_data();
+            let pb = wormhole_aggregator::common::utils::canonical_private_batch_verifier_data(&leaf, n_of(spec))?;
+            let template = Proof::from_bytes(raw(&d.join("dummy_private_batch_proof.bin"))?, &pb.common).map_err(|e| anyhow!("template does not deserialise: {e}"))?;
+            let p = PublicBatchProver::new(wormhole_public_batch_circuit_config(), pb.common.clone(), &pb.verifier_only, m_of(spec), n_of(spec), template)?;
+            Ok(json!({"m": p.num_private_batch_proofs()}))
+        }
+        "load_aggregator" | "load_aggregator_new" => {
+            let addr = BytesDigest::try_from([7u8; 32]).unwrap();
+            let a = if action == "load_aggregator" {
+                PublicBatchAggregator::with_limits(dir_of(spec), addr, wormhole_aggregator::pool::PoolLimits::default())?
+            } else {
+                PublicBatchAggregator::new(dir_of(spec), addr)?
+            };
+            Ok(json!({"m": a.batch_size(), "private_batch_pi_len": a.private_batch_common().num_public_inputs, "public_batch_pi_len": a.public_batch_common().num_public_inputs}))
+        }
+        "public_commit_prove" => {
+            let d = dir_of(spec);
+            let p = PublicBatchProver::new_from_binaries_dir(&d)?;
+            let leaf = canonical_leaf_verifier_data();
+            let cfg = CircuitBinsConfig::load(&d)?;
+            let pb = wormhole_aggregator::common::utils::canonical_private_batch_verifier_data(&leaf, cfg.num_leaf_proofs)?;
+            let inner = Proof::from_bytes(raw(Path::new(spec.args.get("inner_proof").and_then(|v| v.as_str()).expect("inner_proof")))?, &pb.common).map_err(|e| anyhow!("{e}"))?;
+            let proof = p.commit(PublicBatchInputs { proofs: vec![inner], aggregator_address: BytesDigest::try_from([7u8; 32]).unwrap() })?.prove()?;
+            Ok(json!({"public_inputs": proof.public_inputs.len()}))
         }
         other => anyhow::bail!("unknown child action {other}"),
     }
